@@ -1163,7 +1163,8 @@ theorem vacant_drop_noop_rustcEntry (hc : CfgOk cfg) {env : Env} {H : Nat → Na
 
 /-! ## 10. `entry_ref` -/
 
-/-- `entry_ref` on a present key: as `occSpec`, except that `key()` hands back the borrowed `&Q`. -/
+/-- `entry_ref` on a present key: as `occSpec`, except that `key()` only reports the key value
+    (`OccupiedEntry::key()` = the STORED key, whose `k` equals the probe `k` under a lawful `Eq`). -/
 def Map.EChain.refOccSpec (cfg : Cfg) (k : Nat) (c : Map.EChain) (old : Elem) (l : AL) :
     Map.EOut × AL × List Ev :=
   match c with
@@ -1219,6 +1220,8 @@ theorem entryRef_chain_spec (hc : CfgOk cfg) {env : Env} {H : Nat → Nat} (hl :
       refine ⟨w1, ?_, hRI1, by rw [ht]; exact List.Perm.refl _, hlog⟩
       simp only [Map.entryRef, rf_makeHash_lawful hl, rf_bind_ok, hf, rf_pure, Res.onPanic,
         Res.bind, slotGet_ok he1, liftE]
+      have hk' : old.k = k := hk
+      rw [hk']
       rfl
     all_goals
       obtain ⟨w', hch, hRI, hp, hlog'⟩ := hocc
@@ -1469,7 +1472,7 @@ theorem rawEntry_chain_spec (hc : CfgOk cfg) {env : Env} {H : Nat → Nat} (hl :
   cases hfind : AL.find w.t.elems k with
   | some old =>
     rw [hfind] at hlook
-    obtain ⟨idx, w1, hlk, ht, he, _, hlog⟩ := hlook
+    obtain ⟨idx, w1, hlk, ht, he, hk, hlog⟩ := hlook
     have he1 : w1.t.slots[idx]?.join = some old := by rw [ht]; exact he
     have hRI1 : RI cfg H w1.t := by rw [ht]; exact h
     obtain ⟨hi, hf⟩ := en_live hRI1.1.toInv he1
@@ -1517,7 +1520,15 @@ theorem rawEntry_chain_spec (hc : CfgOk cfg) {env : Env} {H : Nat → Nat} (hl :
       simp only [hr, rf_bind_ok, rf_pure]
       exact ⟨_, rfl, hRI', hp', rfl⟩
     | occInsert vid v => exact ⟨_, rfl, hset _ rfl, en_setVal_perm hRI1 he1 vid v, rfl⟩
-    | occInsertKey kid => exact ⟨_, rfl, hset _ rfl, en_setKid_perm hRI1 he1 kid, rfl⟩
+    | occInsertKey kid =>
+      -- `insert_key` stores the caller's key object `(k, kid)`; under a lawful `Eq`, `k = old.k`
+      have hke : ({ old with k := k, kid := kid } : Elem) = { old with kid := kid } := by rw [← hk]
+      refine ⟨{ w1 with t := Map.slotSet w1.t idx { old with kid := kid } }, ?_, hset _ rfl,
+        en_setKid_perm hRI1 he1 kid, rfl⟩
+      show (Res.ok ((true, Map.EOut.key old.k old.kid),
+        { w1 with t := Map.slotSet w1.t idx { old with k := k, kid := kid } }) : Map.EntRes) = _
+      rw [hke]
+      rfl
     | andModify nv => exact ⟨_, rfl, hset _ rfl, en_setPayload_perm hRI1 he1 nv, rfl⟩
     | replaceEntryWith keep nv =>
       cases keep with
@@ -1646,7 +1657,7 @@ theorem vacant_drop_noop_rawEntry (hc : CfgOk cfg) {env : Env} {H : Nat → Nat}
 def en_refCont (cfg : Cfg) (env : Env) (k newkid : Nat) (c : Map.EChain) (h : Nat) (r : Option Nat)
     (w1 : World) : Map.EntRes :=
   match r, c with
-  | some idx, .key => (liftE (slotGet w1.t idx)).bind fun _ => .ok ((true, .qkey k), w1)
+  | some idx, .key => (liftE (slotGet w1.t idx)).bind fun old => .ok ((true, .qkey old.k), w1)
   | some idx, _ => Map.chainOcc cfg env idx c w1
   | none, .key => .ok ((false, .qkey k), w1)
   | none, .insert vid v =>
